@@ -13,7 +13,7 @@ from . import arrays as A
 
 
 def _sym(x):
-    return isinstance(x, (SBool, SInt, SReal, SBV, A.SArr)) or hasattr(x, "_pyvc_symbolic")
+    return isinstance(x, (SBool, SInt, SReal, SBV, A.SArr, A.SArr2)) or hasattr(x, "_pyvc_symbolic")
 
 
 def _anysym(*xs):
@@ -62,6 +62,9 @@ class NumpyShim:
         return A.SArr.symbolic(k, n, "empty")
 
     def _full(self, shape, dtype, v):
+        if isinstance(shape, tuple) and len(shape) == 2 and _anysym(shape):
+            k = self._kind(dtype, A.REAL)
+            return A.SArr2.const(k, A._zi(shape[0]), A._zi(shape[1]), v)
         if not _anysym(shape):
             if isinstance(shape, tuple) and len(shape) > 1 or not getattr(self, "force_symbolic", False):
                 if not getattr(self, "force_symbolic", False):
